@@ -56,7 +56,7 @@ class Check(PropertyCheck):
     run_expr = "run_c13_case"
     case_type = "(N * Z * list N)"
     shard = 300
-    rule = ("sessions on ONE running application per version (streams of callbacks sharing type, sender and APS counter; joins of devices with manufacturer-specific address prefixes included); "
+    rule = ("sessions on ONE running application per version (streams of callbacks sharing type, sender and APS counter; joins of devices with manufacturer-specific address prefixes included; rejoins, departures and returns of devices the application already knows); "
             "every protocol version 4..14 x boundary values of every address-like field (reserved short addresses as sender) x incomingMessageHandler with all 7 defined message types and undefined ones, random APS "
             "fields, endpoints, sender, LQI 0..255, RSSI -128..127, payload lengths 0..maximum (and a long one), and trustCenterJoinHandler "
             "with every device-update status x every join decision; frames built by an independent byte-level encoder; non-trivial = a "
@@ -89,7 +89,18 @@ class Check(PropertyCheck):
             app.state.node_info.nwk = OWN_NWK
             rec = []
             app.packet_received = lambda p: rec.append(("packet", p))
-            app.handle_join = lambda nwk, ieee, parent: rec.append(("join", int(nwk), bytes(ieee.serialize()), int(parent)))
+
+            def handle_join(nwk, ieee, parent):
+                rec.append(("join", int(nwk), bytes(ieee.serialize()), int(parent)))
+                # what zigpy's handle_join does to the device table: the device is known from now on under this address
+                # (a leave does not remove it); later callbacks about it must be translated all the same
+                import zigpy.device
+                dev = app.devices.get(ieee)
+                if dev is None:
+                    app.devices[ieee] = zigpy.device.Device(app, ieee, nwk)
+                else:
+                    dev.nwk = nwk
+            app.handle_join = handle_join
             app.handle_leave = lambda nwk, ieee: rec.append(("leave", int(nwk), bytes(ieee.serialize())))
 
             async def noop(*a, **k):
@@ -161,6 +172,17 @@ class Check(PropertyCheck):
                         # manufacturer id for a while; several such joins hit one running application
                         ieee[5:8] = rng.choice([[0x8C, 0xCF, 0x04], [0x44, 0xEF, 0x54]])
                     j = {"nwk": rng.randrange(65536), "ieee": ieee, "status": status, "decision": decision,
+                         "parent": rng.randrange(65536), "hseq": rng.randrange(256)}
+                    cases.append({"v": v, "kind": "join", "m": j})
+        # devices the application already knows: a device joins, then rejoins (secured / unsecured) under the same short
+        # address with another parent, twice, leaves, comes back, and finally rejoins under a new short address
+        for v in range(4, 15):
+            for _ in range(1 if tier == "quick" else 6):
+                ieee = [rng.randrange(256) for _ in range(8)]
+                nwk = rng.randrange(1, 0xFFF7)
+                seqs = [(1, nwk), (0, nwk), (0, nwk), (3, nwk), (2, nwk), (0, nwk), (0, (nwk + 1) % 0xFFF7), (0, (nwk + 1) % 0xFFF7)]
+                for status, n in seqs:
+                    j = {"nwk": n, "ieee": list(ieee), "status": status, "decision": rng.choice([0, 1, 3]),
                          "parent": rng.randrange(65536), "hseq": rng.randrange(256)}
                     cases.append({"v": v, "kind": "join", "m": j})
         # the coordinator's own short address changes along the life of one application object (a network re-formed or
